@@ -759,10 +759,8 @@ func (e *Exec) fieldAddr(p PtrV, i int, st *State) PtrV {
 			// injectivity, and freshness is inherited from the host object
 			e.ctx.assume(Eq(App("fainv:"+key, Ref, fa), p.Addr))
 			e.ctx.assume(Eq(App("fatag", Ref, fa), ConstI(e.tagOf(key), Ref)))
+			// an embedded struct is as old as its host (relative to function entry)
 			e.ctx.assume(Eq(Lt(fa, e.entry.refTop), Lt(p.Addr, e.entry.refTop)))
-			if st != nil && st.refTop != e.entry.refTop {
-				e.ctx.assume(Eq(Lt(fa, st.refTop), Lt(p.Addr, st.refTop)))
-			}
 			e.ctx.assume(Imp(Lt(ConstI(0, Ref), p.Addr), Lt(ConstI(0, Ref), fa)))
 			return PtrV{Kind: pObj, Addr: fa, T: ft, FirstClass: true}
 		case *types.Array:
